@@ -4,10 +4,19 @@ C03 — minimisation preserves the language and yields the trim minimal automato
 Proved here: soundness of the certificate checkers that the check runs on every (raw, minimised)
 pair the real library produces — a pair that passes has equal languages and a minimised automaton
 with no unreachable state, no dead state and no two equivalent states, hence of minimal size.
-`hopcroft_correct` (the model of `do_minimize` is correct for every work-list order) is the open
-growth target; it is *not* claimed.
+And over the model of `do_minimize` itself (`Model/Min.lean`: Hopcroft's partition refinement on the
+automaton completed with the dead state 0, for *every* iteration order of its hash containers, then
+the quotient, the two clean-up passes and the renumbering): `hopcroft_preserves_language` — whenever
+`minimize` returns, the result accepts exactly the words of the input, for every well-formed input
+automaton (`Min.WF`: state 0 unused, deterministic transitions, input indices in range, accepting
+states reachable); `hopcroft_partition_stable` — the partition it ends with is a congruence that
+never mixes accepting and non-accepting states (`Proofs/Hopcroft.lean`).  Minimality of the result
+(no two equivalent states remain) is not proved over the model; it is decided per automaton by the
+certificates above.
 -/
 import Complgen.Proofs.Cert
+import Complgen.Proofs.Hopcroft
+import Complgen.Proofs.BuildWF
 namespace Complgen.Props.C03
 open Complgen.Cert
 
@@ -42,5 +51,33 @@ example :
     accessCheck a [(0, []), (1, ["a"]), (2, ["a", "c"])] = true ∧
     coaccessCheck a [(0, ["a", "c"]), (1, ["c"]), (2, [])] = true ∧
     distinctCheck a [((0, 1), ["c"]), ((0, 2), []), ((1, 2), [])] = true := by decide
+
+open Complgen in
+/-- **The model of the minimiser preserves the language, for every schedule of its work-list.** -/
+theorem hopcroft_preserves_language (σ : Schedule) (a m : Auto) (hwf : Min.WF a) (h : Min.minimize σ a = some m) :
+    ∀ w : List Nat, m.accepts w = a.accepts w :=
+  Min.minimize_lang σ a m hwf h
+
+open Complgen in
+/-- the partition the refinement ends with: blocks cover all states, are disjoint, never mix accepting
+and non-accepting states, and states of one block step into one common block on every input -/
+theorem hopcroft_partition_stable (σ : Schedule) (a : Auto) (P : List Min.Block) (hwf : Min.WF a)
+    (h : Min.partition σ a = some P) : Min.PInv a P ∧ Min.Stable a P :=
+  Min.partition_stable σ a P hwf h
+
+open Complgen in
+/-- what the subset construction builds is well-formed (states numbered from 1, deterministic, input
+indices in range, every accepting state reachable) -/
+theorem built_automaton_wf (σ : Schedule) (r : Regex) (symOf : Nat → Option Inp) (a : Auto)
+    (h : buildAuto σ r symOf = some a) : Min.WF a :=
+  buildAuto_WF σ r symOf a h
+
+open Complgen in
+/-- **Minimising the automaton the compiler builds preserves its language**, for every schedule of the
+subset construction and every schedule of the minimiser. -/
+theorem minimize_built_automaton (σ σ' : Schedule) (r : Regex) (symOf : Nat → Option Inp) (a m : Auto)
+    (h : buildAuto σ r symOf = some a) (hm : Min.minimize σ' a = some m) :
+    ∀ w : List Nat, m.accepts w = a.accepts w :=
+  minimize_buildAuto_lang σ σ' r symOf a m h hm
 
 end Complgen.Props.C03
